@@ -526,7 +526,7 @@ def creationPass (fltOf : String → Option FloatAtom) (st : DecSt) : List Creat
 
 /-- `decode_container(graph, bundle)` -/
 def decodeContainer (h : Heap) (doc c : Nat) (hint : Term → Option LitHint) (fltOf : String → Option FloatAtom)
-    (typeTriples all : List Triple) : Heap × Option Err :=
+    (typeTriples all : List Triple) (pat : List Triple := all) : Heap × Option Err :=
   match typeTriples.foldlM (typePass h doc hint) ({} : DecSt) with
   | .error e => (h, some e)
   | .ok st1 =>
@@ -536,7 +536,9 @@ def decodeContainer (h : Heap) (doc c : Nat) (hint : Term → Option LitHint) (f
     let rec go (h : Heap) (st : DecSt) : List Triple → Heap × Except Err DecSt
       | [] => (h, .ok st)
       | t :: rest =>
-        match triplePass h doc hint all (st, []) t with
+        -- the look-ups `graph.triples((id, prov:qualified…/asInBundle, None))` see the store's *index* order (`pat`), which is
+        -- not the order in which `for id, pred, obj in graph` iterates the context's triple set (`all`)
+        match triplePass h doc hint pat (st, []) t with
         | .error e => (h, .error e)
         | .ok (st', creates) =>
           let rec mk (h : Heap) : List Create → Heap × Option Err
@@ -566,6 +568,7 @@ structure GraphIn where
   id : Option String            -- none: the default graph (a blank-node identifier)
   typeTriples : List Triple
   all : List Triple
+  pat : List Triple := all        -- results of the pattern queries the reader issues, in the store's index order
   deriving Inhabited
 
 /-- `decode_document(content, document)` on a fresh document -/
@@ -578,14 +581,14 @@ def decodeDocument (h : Heap) (nss : List Ns) (graphs : List GraphIn) (hint : Te
     | g :: rest =>
       match g.id with
       | none =>
-        match decodeContainer h d d hint fltOf g.typeTriples g.all with
+        match decodeContainer h d d hint fltOf g.typeTriples g.all g.pat with
         | (h', none) => go h' rest
         | (h', some e) => (h', some e)
       | some bid =>
         match h.bundle d (.str bid) with
         | (h', .error e) => (h', some e)
         | (h', .ok b) =>
-          match decodeContainer h' d b hint fltOf g.typeTriples g.all with
+          match decodeContainer h' d b hint fltOf g.typeTriples g.all g.pat with
           | (h'', none) => go h'' rest
           | (h'', some e) => (h'', some e)
   match go h1 graphs with
